@@ -292,6 +292,10 @@ class ReadableStream(io.RawIOBase):
         :returns: 1 - 7 bytes of data or no bytes if EOF.
         :rtype: bytes
         """
+        if self._unread:
+            # Data left over from a readinto() with a small buffer comes first
+            data, self._unread = self._unread, b""
+            return data
         if self._done:
             return b""
         if self.exp_data is not None:
@@ -534,6 +538,10 @@ class BlockUploadStream(io.RawIOBase):
         :returns: 1 - 7 bytes of data or no bytes if EOF.
         :rtype: bytes
         """
+        if self._unread:
+            # Data left over from a readinto() with a small buffer comes first
+            data, self._unread = self._unread, b""
+            return data
         if self._done:
             return b""
         if size is None or size < 0:
